@@ -10,6 +10,7 @@ import (
 	"os"
 	"path/filepath"
 	"runtime"
+	"runtime/debug"
 	"strings"
 	"testing/synctest"
 	"time"
@@ -38,7 +39,7 @@ func genC12(r *Rng, tier string, idx int) *Program {
 	p.Cfg.LevelMs = []int64{2000, 9000}[:r.Range(1, 2)]
 	p.Cfg.MaxSyncWALBytes = []int64{0, 1, 3000, 64 << 20}[r.Intn(4)]
 	nt := r.Range(2, 5)
-	p.Params = map[string]int64{"tasks": int64(nt), "sql_seam": int64(r.Intn(2))}
+	p.Params = map[string]int64{"tasks": int64(nt), "sql_seam": int64(r.Intn(2)), "aux_dbs": int64(r.Pick([]int{5, 3, 2}))}
 	// task 0: application writer
 	for i := 0; i < r.Range(3, 10); i++ {
 		st := genAppStep(r, &p.Cfg)
@@ -78,6 +79,9 @@ func genC12(r *Rng, tier string, idx int) *Program {
 			if lifecycle && r.Chance(0.3) {
 				op = Op{Kind: PickOf(r, []string{"register", "register", "unregister", "disable", "enable"})}
 			}
+			if lifecycle && r.Chance(0.07) {
+				op = Op{Kind: "store_close"} // shutdown while other operations are still running
+			}
 			op.Level = tk
 			p.Ops = append(p.Ops, op)
 		}
@@ -86,6 +90,42 @@ func genC12(r *Rng, tier string, idx int) *Program {
 		p.Schedule = append(p.Schedule, r.Intn(1000))
 	}
 	return p
+}
+
+// taskPanic classifies a panic that escaped from a task: if the innermost frames
+// below the panic are litestream's, an operation of the daemon crashed (what
+// would take the whole process down) - a violation; if they are the harness's
+// own, harness trouble.
+//
+//go:norace
+func taskPanic(e *Env, res *Result, msg, stack string) {
+	lines := strings.Split(stack, "\n")
+	inLS := false
+	seenPanic := false
+	for _, l := range lines {
+		if strings.HasPrefix(l, "panic(") {
+			seenPanic = true
+			continue
+		}
+		if !seenPanic || strings.HasPrefix(l, "\t") {
+			continue
+		}
+		if strings.HasPrefix(l, "runtime.") || strings.HasPrefix(l, "sync.") || strings.HasPrefix(l, "slices.") {
+			continue
+		}
+		inLS = strings.HasPrefix(l, "github.com/benbjohnson/litestream")
+		break
+	}
+	if len(stack) > 2500 {
+		stack = stack[:2500]
+	}
+	if inLS {
+		if res.Violation == nil {
+			res.Violation = &Violation{Property: "C12", Class: "operation-panicked", Msg: "a daemon operation panicked: " + msg + " | " + e.san(strings.ReplaceAll(stack, "\n", " | ")), Facts: map[string]any{}}
+		}
+	} else if res.Trouble == "" {
+		res.Trouble = "panic in a task (harness): " + msg + " " + e.san(stack)
+	}
 }
 
 type concTaskLog struct {
@@ -192,6 +232,31 @@ func runC12Bubble(e *Env, p *Program, res *Result) {
 	store := e.LS.Store
 	levels := e.LS.Levels
 	ctx := context.Background()
+	// further (idle) databases managed by the same store, registered after the
+	// one under test: the store's list then has more than one element, so that
+	// removing the first one moves the others
+	var auxDBs []*litestream.DB
+	for i := 0; i < int(p.Params["aux_dbs"]); i++ {
+		ap := filepath.Join(e.Dir, fmt.Sprintf("aux%d.db", i))
+		if sdb, err := sql.Open("sqlite", "file:"+ap+"?_pragma=busy_timeout(0)&_pragma=journal_mode(wal)"); err == nil {
+			sdb.Exec("CREATE TABLE t (x)")
+			sdb.Exec("INSERT INTO t VALUES (1)")
+			sdb.Close()
+		}
+		ad := litestream.NewDB(ap)
+		ad.MonitorInterval = 0
+		ad.BusyTimeout = 0
+		ac := file.NewReplicaClient(filepath.Join(e.Dir, fmt.Sprintf("aux%d-replica", i)))
+		ar := litestream.NewReplicaWithClient(ad, ac)
+		ac.Replica = ar
+		ar.MonitorEnabled = false
+		ad.Replica = ar
+		if err := store.RegisterDB(ad); err != nil {
+			res.Trouble = "register aux db: " + err.Error()
+			return
+		}
+		auxDBs = append(auxDBs, ad)
+	}
 	nt := int(p.Params["tasks"])
 	sch := NewSched(p.Schedule)
 	sch.NoHB = true
@@ -217,6 +282,12 @@ func runC12Bubble(e *Env, p *Program, res *Result) {
 			}
 		}
 		sch.Go(fmt.Sprintf("t%d", tk), func(task *Task) {
+			defer func() {
+				if rec := recover(); rec != nil {
+					st := string(debug.Stack())
+					taskPanic(e, res, fmt.Sprint(rec), st)
+				}
+			}()
 			for i := range myops {
 				op := &myops[i]
 				var r string
@@ -274,6 +345,9 @@ func runC12Bubble(e *Env, p *Program, res *Result) {
 		}
 	}
 	res.Probes["context_switches"] = switches
+	if res.Violation != nil || res.Trouble != "" {
+		return // an operation panicked: locks it held stay taken, nothing further is meaningful
+	}
 	if len(stuck) > 0 {
 		res.Violation = e.fail("call-never-returns", "after the schedule ended and every yield was released, these calls still have not returned: %v", stuck)
 		return
@@ -282,6 +356,7 @@ func runC12Bubble(e *Env, p *Program, res *Result) {
 	// checkpoint lock of every instance are free
 	res.Checks++
 	lockDBs := append([]*litestream.DB{}, extraDBs...)
+	lockDBs = append(lockDBs, auxDBs...)
 	for _, d := range store.DBs() {
 		lockDBs = append(lockDBs, d)
 	}
@@ -439,6 +514,9 @@ func concExec(ctx context.Context, e *Env, store *litestream.Store, levels lites
 		extra <- nd
 		lg.probes["register_calls"]++
 		return errStr(store.RegisterDB(nd))
+	case "store_close":
+		lg.probes["store_close_calls"]++
+		return errStr(store.Close(ctx))
 	case "unregister":
 		lg.probes["unregister_calls"]++
 		return errStr(store.UnregisterDB(ctx, e.DBPath))
